@@ -260,7 +260,70 @@ def canonical_cases(quick):
                                'tmin': 0, 'tmax': tmax, 'depth': 5 if quick else 6}
 
 
+def long_run_cases(seed, quick):
+    yield {'kind': 'stages', 'nodes': 30, 'stages': 3600 if quick else 12000, 'seed': seed * 17 + 3}
+    yield {'kind': 'hub', 'leaves': 3000 if quick else 20000, 'seed': seed * 19 + 5}
+
+
+def prop_long_run(case):
+    """more than 1e5 events in one call (independent nodes stepping through thousands of stages: the run must end with every node in
+    the last stage after exactly nodes*stages events), and a first event on a star whose hub has rate ~1e2 x leaves against leaves of
+    rate 1e-9 (the hub must fire first: a leaf first has probability < 1e-7)"""
+    import random
+    import EoN
+    import numpy as np
+    fails = []
+    random.seed(case['seed']); np.random.seed(case['seed'] % 2 ** 32)
+    try:
+        if case['kind'] == 'stages':
+            N, K = case['nodes'], case['stages']
+            G = nx.empty_graph(N)
+
+            def rate(G_, node, status, parameters):
+                return 1.0 if status[node] < K else 0.0
+
+            def choose(G_, node, status, parameters):
+                return status[node] + 1
+
+            def influence(G_, node, status, parameters):
+                return []
+            out = EoN.Gillespie_complex_contagion(G, rate, choose, influence, {u: 0 for u in G}, (K,), tmax=1e15, parameters=())
+            t, last = out
+            if int(last[-1]) != N or len(t) != N * K + 1:
+                fails.append(Failure('Gillespie_complex_contagion:long-run:stops-early',
+                                     '%d independent nodes stepping through %d stages at rate 1, tmax=1e15: %d events reported (expected %d), %d nodes in the last stage'
+                                     % (N, K, len(t) - 1, N * K, int(last[-1]))))
+        else:
+            L = case['leaves']
+            G = nx.star_graph(L)
+
+            def rate(G_, node, status, parameters):
+                if status[node] != 'S':
+                    return 0.0
+                return 100.0 * L if node == 0 else 1e-9
+
+            def choose(G_, node, status, parameters):
+                return 'I'
+
+            def influence(G_, node, status, parameters):
+                return []
+            for rep in range(6):
+                out = EoN.Gillespie_complex_contagion(G, rate, choose, influence, {u: 'S' for u in G}, ('S', 'I'), tmax=1e-3, parameters=(),
+                                                      return_full_data=True)
+                changed = sorted((out.node_history(u)[0][1], u) for u in G if len(out.node_history(u)[0]) > 1)
+                first = [u for _t, u in changed[:3]]
+                if not first or first[0] != 0:
+                    fails.append(Failure('Gillespie_complex_contagion:long-run:wrong-node-first',
+                                         'star with %d leaves, hub rate %g, leaf rate 1e-9: node(s) %r changed before the hub' % (L, 100.0 * L, first[:3])))
+                    break
+    except Exception as e:
+        fails.append(Failure('Gillespie_complex_contagion:long-run:exception:%s' % type(e).__name__, '%r' % (e,)))
+    return Result(fails, nontrivial=True, classes=['long-run:' + case['kind']])
+
+
 def replay(ctx, sub, case):
+    if sub == 'long-run':
+        return prop_long_run(case).failures
     if 'walk' in case:
         return prop_walk(case).failures
     return tree_prop(case).failures
@@ -279,6 +342,9 @@ def run(ctx):
     only = getattr(ctx, 'only', None)
     if not only or 'canonical' in only:
         c01.run_exhaustive(ctx, 'canonical', canonical_cases(quick), 'eonverif.props.c15', 'tree_prop')
+    if not only or 'long-run' in only:
+        from ..runner import run_cases
+        run_cases(ctx, 'long-run', long_run_cases(ctx.seed, quick), prop_long_run, case_timeout=900)
     if not only or 'walk' in only:
         run_hypothesis(ctx, 'walk', model_case(), prop_walk, 500 if quick else 20000,
                        min_class_fraction={'tmax-inf': 0.2, 'hops2': 0.1})
